@@ -108,3 +108,22 @@ Lemma C18_build_fails_although_wiring_realisable :
   exists d n, transform true d = Ok n /\ wiring_ok (den_conns n []) [] = true /\ tree_ok n = false /\
               Build.build (fun _ => true) n = Panic Build.P_EXPECT_GATE.
 Proof. exists d_f11c. eexists. split; [vm_compute; reflexivity|]. repeat split; vm_compute; reflexivity. Qed.
+
+(* F11c, second shape: G(T <- I, I <- J) { h: T; s: I; h/p <-> s/q } instantiated as G(I, C) with the global I as first
+   argument: h becomes I's tree, whose symbol is the name of the second parameter, and is replaced again by C *)
+Definition J := nm 74.
+Definition d_f11c_args : Def :=
+  {| d_entry := Zz;
+     d_modules :=
+       [plain Zz [(fld 108, tc G [I; Cc])];
+        ({| tc_ident := G; tc_args := [{| g_binding := T; g_bound := I |}; {| g_binding := I; g_bound := J |}] |},
+         {| md_inherit := None; md_gates := []; md_subs := [(fld 104, tc T []); (fld 115, tc I [])];
+            md_conns := [{| cd_lhs := [gate1 104; gate1 112]; cd_rhs := [gate1 115; gate1 113]; cd_link := None |}] |});
+        ({| tc_ident := I; tc_args := [] |}, {| md_inherit := None; md_gates := [gate1 112]; md_subs := []; md_conns := [] |});
+        ({| tc_ident := J; tc_args := [] |}, {| md_inherit := None; md_gates := [gate1 113]; md_subs := []; md_conns := [] |});
+        ({| tc_ident := Cc; tc_args := [] |}, {| md_inherit := Some J; md_gates := []; md_subs := []; md_conns := [] |})];
+     d_links := [] |}.
+Lemma C18_known_class_witness_argument_shape :
+  KnownClass d_f11c_args /\ f11c_shape d_f11c_args = true /\
+  exists n, transform true d_f11c_args = Ok n /\ Build.build (fun _ => true) n = Panic Build.P_EXPECT_GATE.
+Proof. split; [eexists; split; vm_compute; reflexivity|]. split; [vm_compute; reflexivity|]. eexists. split; vm_compute; reflexivity. Qed.
